@@ -98,7 +98,7 @@ def evaluate(cfg, stim, backend="fast"):
 
 
 def shards(tier, seed):
-    out = [dict(tier=tier, seed=seed * 1000 + i, idx=i, ndev=(3 if tier == "quick" else 10), ncases=(40 if tier == "quick" else 100)) for i in range(16)]
+    out = [dict(tier=tier, seed=seed * 1000 + i, idx=i, ndev=(3 if tier == "quick" else 16), ncases=(40 if tier == "quick" else 300)) for i in range(16)]
     for i in range(8 if tier == "quick" else 16):
         out.append(dict(kind="core", tier=tier, seed=seed * 1000 + 500 + i, idx=i, ncfg=(2 if tier == "quick" else 4), ncases=(12 if tier == "quick" else 20)))
     return out
